@@ -63,12 +63,22 @@ func (mapping *VariableMapping) GetUniqueName(name string) (string, bool) {
 }
 
 func GetUniqueNameMatchingVariable(mapping map[string]string, name string) (string, bool) {
+	if unique, ok := mapping[name]; ok {
+		return unique, true
+	}
+	// The result mustn't depend on the map iteration order, so all matches are looked at.
+	found := false
+	var matched string
 	for original, unique := range mapping {
 		if physical.VariableNameMatchesField(name, original) {
-			return unique, true
+			if found && unique != matched {
+				panic(fmt.Errorf("ambiguous variable: '%s'", name))
+			}
+			found = true
+			matched = unique
 		}
 	}
-	return "", false
+	return matched, found
 }
 
 func ReverseMapping(mapping map[string]string) map[string]string {
